@@ -1761,9 +1761,9 @@ class Compiler:
 
         # The filler keeps track of its own position; the token of the
         # expression evaluated last in this macro is not its call site.
-        orelse = template("__token = None") + template(
+        orelse = template("__token = None") + self._call_macro(template(
             "SLOT(__stream, econtext.copy(), rcontext)",
-            SLOT=name)
+            SLOT=name))
         test = ast.Compare(
             left=load(name),
             ops=[ast.Is()],
